@@ -253,6 +253,12 @@ def step (d : DState) (line : String) : DState × List String :=
   | ["items", src] =>
     let source := if src == "N" then d.parser.parameters else some (unhexs (src.drop 1).toString)
     (d, ["ok " ++ itemsD (parameterItems source)])
+  | ["psplit", src] =>
+    let source := if src == "N" then none else some (unhexs (src.drop 1).toString)
+    match splitGcodeScript source with
+    | .ok none => (d, ["ok N"])
+    | .ok (some ls) => (d, ["ok " ++ (if ls.isEmpty then "-" else ",".intercalate (ls.map hexs))])
+    | .error e => (d, ["err " ++ e.name])
   | ["specwords", src] =>
     let ws : List (Char × Option Float) := C19.specRead (unhexs src)
     (d, ["ok " ++ (if ws.isEmpty then "-" else ",".intercalate (ws.map (fun (c, v) => s!"{c}:{fnum v}")))])
